@@ -18,20 +18,20 @@ EXTENDS Naturals, Sequences, FiniteSets, TLC, Json, IOUtils
 Trace == ndJsonDeserialize(IOEnv.TRACE_FILE)
 N == Len(Trace)
 
-VARIABLES l, tid, parseOf, printOf, toksOf, copyOf, nbad, nclaims
-vars == <<l, tid, parseOf, printOf, toksOf, copyOf, nbad, nclaims>>
+VARIABLES l, tid, parseOf, printOf, toksOf, copyOf, obsOf, nbad, nclaims
+vars == <<l, tid, parseOf, printOf, toksOf, copyOf, obsOf, nbad, nclaims>>
 
 Empty == [x \in {} |-> 0]
 Has(f, k) == k \in DOMAIN f
 Ev == Trace[l]
 Is(e) == Ev.e = e
 
-Init == /\ l = 1 /\ tid = 0 /\ parseOf = Empty /\ printOf = Empty /\ toksOf = Empty /\ copyOf = Empty
+Init == /\ l = 1 /\ tid = 0 /\ parseOf = Empty /\ printOf = Empty /\ toksOf = Empty /\ copyOf = Empty /\ obsOf = Empty
         /\ nbad = 0 /\ nclaims = 0
 
 Fail(clause) == /\ PrintT(<<"REJECT", tid, l, clause>>) /\ nbad' = nbad + 1
 
-Begin == /\ tid' = Ev.t /\ parseOf' = Empty /\ printOf' = Empty /\ toksOf' = Empty /\ copyOf' = Empty
+Begin == /\ tid' = Ev.t /\ parseOf' = Empty /\ printOf' = Empty /\ toksOf' = Empty /\ copyOf' = Empty /\ obsOf' = Empty
          /\ UNCHANGED <<nbad, nclaims>>
 
 \* ---------------------------------------------------------------- observations
@@ -43,22 +43,27 @@ ParseEv ==
   /\ IF Has(parseOf, key) /\ ~SameOutcome(parseOf[key], o)
      THEN Fail("Deterministic") /\ UNCHANGED parseOf
      ELSE /\ parseOf' = (key :> o) @@ parseOf /\ UNCHANGED nbad
-  /\ UNCHANGED <<tid, printOf, toksOf, copyOf, nclaims>>
+  /\ UNCHANGED <<tid, printOf, toksOf, copyOf, obsOf, nclaims>>
 
 PrintEv ==
   /\ IF Has(printOf, Ev.tree) /\ printOf[Ev.tree].text # Ev.text
      THEN Fail("PrintDeterministic") /\ UNCHANGED printOf
      ELSE /\ printOf' = (Ev.tree :> [text |-> Ev.text, tci |-> Ev.tci]) @@ printOf /\ UNCHANGED nbad
-  /\ UNCHANGED <<tid, parseOf, toksOf, copyOf, nclaims>>
+  /\ UNCHANGED <<tid, parseOf, toksOf, copyOf, obsOf, nclaims>>
 
 ToksEv ==
   /\ toksOf' = (Ev.text :> Ev.tk) @@ toksOf
-  /\ UNCHANGED <<tid, parseOf, printOf, copyOf, nbad, nclaims>>
+  /\ UNCHANGED <<tid, parseOf, printOf, copyOf, obsOf, nbad, nclaims>>
 
 CopyEv ==
   /\ copyOf' = (<<Ev.tree, Ev.how>> :> [ok |-> Ev.ok, st |-> Ev.st, text |-> Ev.text, disjoint |-> Ev.disjoint,
                                          indep |-> Ev.indep, wf |-> Ev.wf]) @@ copyOf
-  /\ UNCHANGED <<tid, parseOf, printOf, toksOf, nbad, nclaims>>
+  /\ UNCHANGED <<tid, parseOf, printOf, toksOf, obsOf, nbad, nclaims>>
+
+\* any further observation of a tree (leaf sequence, table forest, ...) as a digest
+ObsEv ==
+  /\ obsOf' = (<<Ev.tree, Ev.key>> :> Ev.val) @@ obsOf
+  /\ UNCHANGED <<tid, parseOf, printOf, toksOf, copyOf, nbad, nclaims>>
 
 \* ------------------------------------------------------------------------ the laws
 \* each law yields "" when it holds and otherwise the name of the first failing clause
@@ -131,6 +136,19 @@ CopyFaithful(s, c, how) ==  \* C18
             ELSE IF ~k.indep THEN "copy-not-independent"
             ELSE ""
 
+ObsEq(s, c, key, val) ==    \* C11 C14 C16: an observation of the tree equals the specification's prediction
+  IF ~Has(parseOf, <<s, c>>) THEN "missing-parse"
+  ELSE IF P(s, c).res # "ok" THEN "not-accepted"
+  ELSE IF ~Has(obsOf, <<P(s, c).tree, key>>) THEN "missing-observation"
+  ELSE IF obsOf[<<P(s, c).tree, key>>] # val THEN "observation-differs" ELSE ""
+
+ObsSame(s, c, key, s2, c2) ==   \* C14: the tree with the inserted nodes removed is the tree of the original
+  IF ~Has(parseOf, <<s, c>>) \/ ~Has(parseOf, <<s2, c2>>) THEN "missing-parse"
+  ELSE IF P(s2, c2).res # "ok" THEN "reference-not-accepted"
+  ELSE IF P(s, c).res # "ok" THEN "variant-not-accepted"
+  ELSE IF ~Has(obsOf, <<P(s, c).tree, key>>) THEN "missing-observation"
+  ELSE IF obsOf[<<P(s, c).tree, key>>] # P(s2, c2).st THEN "tree-differs" ELSE ""
+
 Law(ev) ==
   CASE ev.law = "fixpoint" -> Fixpoint(ev.src, ev.cfg)
     [] ev.law = "tokens" -> TokensPreserved(ev.src, ev.cfg)
@@ -141,13 +159,15 @@ Law(ev) ==
     [] ev.law = "clean" -> Clean(ev.src, ev.cfg)
     [] ev.law = "stdmono" -> StdMonotone(ev.src, ev.cfg, ev.cfg2, ev.exact)
     [] ev.law = "copy" -> CopyFaithful(ev.src, ev.cfg, ev.how)
+    [] ev.law = "obseq" -> ObsEq(ev.src, ev.cfg, ev.key, ev.val)
+    [] ev.law = "obssame" -> ObsSame(ev.src, ev.cfg, ev.key, ev.src2, ev.cfg2)
     [] OTHER -> "unknown-law"
 
 Claim ==
   LET c == Law(Ev) IN
   /\ IF c = "" THEN UNCHANGED nbad ELSE Fail(c)
   /\ nclaims' = nclaims + 1
-  /\ UNCHANGED <<tid, parseOf, printOf, toksOf, copyOf>>
+  /\ UNCHANGED <<tid, parseOf, printOf, toksOf, copyOf, obsOf>>
 
 Next == /\ l <= N /\ l' = l + 1
         /\ CASE Is("begin") -> Begin
@@ -156,7 +176,8 @@ Next == /\ l <= N /\ l' = l + 1
              [] Is("toks") -> ToksEv
              [] Is("copy") -> CopyEv
              [] Is("claim") -> Claim
-             [] OTHER -> Fail("unknown-event") /\ UNCHANGED <<tid, parseOf, printOf, toksOf, copyOf, nclaims>>
+             [] Is("obs") -> ObsEv
+             [] OTHER -> Fail("unknown-event") /\ UNCHANGED <<tid, parseOf, printOf, toksOf, copyOf, obsOf, nclaims>>
 
 Spec == Init /\ [][Next]_vars
 Done == (l = N + 1) => PrintT(<<"DONE", nbad, nclaims, N>>)
